@@ -1678,8 +1678,18 @@ impl HnswBackend {
         }
 
         let mut embedding = embedding;
-        let distance = self.index.read().distance_metric();
+        let (distance, normalization_check_disabled) = {
+            let index = self.index.read();
+            (
+                index.distance_metric(),
+                index.normalization_check_disabled(),
+            )
+        };
         normalize_in_place_if_needed(distance, &mut embedding)?;
+        // Refuse vectors the index would reject *before* anything reaches the WAL. A logged
+        // insert that is later compensated by a Delete entry deletes a live document with
+        // the same id on the next recovery, so a failed overwrite must never be logged.
+        validate_embedding_for_index(distance, normalization_check_disabled, &embedding)?;
         let embedding_digest = digest_embedding(&embedding);
 
         let mut attempted_compaction = false;
@@ -3123,6 +3133,32 @@ fn normalize_in_place_if_needed(distance: DistanceMetric, embedding: &mut [f32])
         *v *= inv_norm;
     }
 
+    Ok(())
+}
+
+/// Mirror of the per-vector checks in `HnswVectorIndex::add_vector`, applied before the WAL append.
+fn validate_embedding_for_index(
+    distance: DistanceMetric,
+    normalization_check_disabled: bool,
+    embedding: &[f32],
+) -> Result<()> {
+    if embedding.iter().any(|v| !v.is_finite()) {
+        anyhow::bail!("embedding contains non-finite values");
+    }
+    if matches!(
+        distance,
+        DistanceMetric::Cosine | DistanceMetric::InnerProduct
+    ) && !normalization_check_disabled
+    {
+        let norm_sq = crate::simd::sum_squares_f32(embedding);
+        if !(NORMALIZATION_NORM_SQ_MIN..=NORMALIZATION_NORM_SQ_MAX).contains(&norm_sq) {
+            anyhow::bail!(
+                "{:?} requires L2-normalized vectors; norm_sq={}",
+                distance,
+                norm_sq
+            );
+        }
+    }
     Ok(())
 }
 
